@@ -47,7 +47,7 @@ package main
 //@   ensures $fsops <= old($fsops)+1
 //@   modifies $fsops
 
-// clean: the only file operations are os.Remove calls, each on an entry of the
+// clean: the only file operations are os.Remove calls, each on a non-directory entry of the
 // local directory whose name ends in .v1.count or .json, or an entry of the
 // upload directory whose name ends in .json; every such entry is removed.
 // (The two directories are different paths: NewDir joins "local" and "upload"
@@ -56,11 +56,11 @@ package main
 //@   requires telemetry.Default.LocalDir() != telemetry.Default.UploadDir()
 //@   at call Remove#1: ghost $removes = $removes+1
 //@   at call Remove#1: assert arg0 == filepath.Join(dir, entry.Name())
-//@   at call Remove#1: assert wanted(dir, entry.Name())
+//@   at call Remove#1: assert wanted(dir, entry.Name()) && !entry.IsDir()
 //@   at call Remove#1: ghost $rm = true
 //@   at call Name#1: ghost $rm = false
 //@   loop 3: invariant (rangeindex >= 0 ==> !$rm) && len(suffixes) <= 2 && (!remove && rangeindex >= 0 ==> !strings.HasSuffix(entry.Name(), suffixes[0])) && (!remove && rangeindex >= 1 ==> !strings.HasSuffix(entry.Name(), suffixes[1]))
-//@   at loop 2 end: assert wanted(dir, entry.Name()) ==> $rm
+//@   at loop 2 end: assert wanted(dir, entry.Name()) && !entry.IsDir() ==> $rm
 //@   loop 1: invariant $fsops-old($fsops) == $removes-old($removes)
 //@   loop 2: invariant $fsops-old($fsops) == $removes-old($removes)
 //@   loop 3: invariant $fsops-old($fsops) == $removes-old($removes)
